@@ -153,7 +153,7 @@ func drawConfig(rt *rapid.T) config {
 	}
 	for i := 0; i < c.NPeers; i++ {
 		n := 1
-		if rapid.IntRange(0, 5).Draw(rt, "twoConns") == 0 {
+		if rapid.IntRange(0, 3).Draw(rt, "twoConns") == 0 {
 			n = 2
 		}
 		var l []int
@@ -167,11 +167,11 @@ func drawConfig(rt *rapid.T) config {
 
 // tableACL is the generated ACL; the oracle reads the same tables.
 type tableACL struct {
-	denyRes  map[peer.ID]bool
-	denyIP   map[string]bool
-	denySrc  map[string]bool
-	denyConn map[[2]peer.ID]bool
-	mu       sync.Mutex
+	denyRes                    map[peer.ID]bool
+	denyIP                     map[string]bool
+	denySrc                    map[string]bool
+	denyConn                   map[[2]peer.ID]bool
+	mu                         sync.Mutex
 	reserveCalls, connectCalls int
 }
 
@@ -240,6 +240,7 @@ type circ struct {
 	deadline         time.Time // zero: unlimited
 	sentAB, recvB    []byte
 	sentBA, recvA    []byte
+	gone             bool // ended and removed from the model
 	abClosed         bool // the harness half-closed A->B
 	baClosed         bool
 }
@@ -287,6 +288,9 @@ type world struct {
 func (w *world) label(l string) { w.labels[l] = true }
 
 func (w *world) failf(format string, a ...any) {
+	if w.rt == nil {
+		panic(fmt.Sprintf(format, a...))
+	}
 	w.rt.Fatalf("%s\nconfig: %+v\nhistory:\n  %s", fmt.Sprintf(format, a...), w.cfg, joinLines(w.trace))
 }
 
